@@ -18,8 +18,8 @@ RULE = ("months chosen so that all 28 month shapes (length 28..31 x weekday of t
         "zoneinfo) x instances on/around that day and elsewhere in its month/quarter/year x fold 0/1 x times 00:00, inside the gap, noon, and "
         "for each such day g and each target T = g-6..g+6 the calls that reach T across g (zone-enumerated) -- each compared with the Coq "
         "model Model/WeekdayZone.v run on the zone's table (wall fields, fold and utcoffset of the result and of the constructed instance) AND "
-        "with zoneinfo arithmetic; model budget: two of three year-unit nth_of zone cases of the quick tier (three of four, and every other "
-        "quarter-unit one, in the thorough tier) are oracle-only; "
+        "with zoneinfo arithmetic; model budget: two of three year-unit nth_of zone cases of the quick tier (seven of eight, three of four quarter-unit, every other "
+        "month-unit nth_of and next/previous case in the thorough tier) are oracle-only; "
         "`firstweekday`: process-wide configuration set before the call -- calendar.setfirstweekday(0..6) x Date/DateTime x first_of/last_of "
         "(3 units, None + 7 weekdays) x nth_of (n = 1, 2), the setting is an argument of the case (self-contained replay) and is modelled "
         "(fw_* functions; the configured calendar.monthcalendar itself is validated against calendar.Calendar(fw)); every result must be a "
@@ -269,15 +269,17 @@ def _zone_cases(tier, seed, rnd):
             g = _dt.date.fromordinal(rnd.randrange(_dt.date(1990, 1, 1).toordinal(), _dt.date(2035, 1, 1).toordinal()))
             out += _around(zone, g, rnd, 6, "zone-control")
     # model budget: a year-unit nth_of costs the model ~13 ms (up to 53 next() hops of up to 7 create() each), a quarter-unit one
-    # ~4 ms; quick tier: one in three year-unit cases is modelled; thorough tier (13 x more zone cases): one in four year-unit and
-    # one in two quarter-unit cases; the others are left to the oracle alone ("model": 0); every other zone case is modelled
-    every = {2: 4, 1: 2} if thorough else {2: 3}
-    k = {1: 0, 2: 0}
+    # ~4 ms, a month-unit one 1.5 ms, next/previous 0.4 ms.  Quick tier: one in three year-unit cases is modelled, everything else
+    # always.  Thorough tier (15 x more zone cases): one in eight year-unit, one in four quarter-unit, one in two month-unit nth_of
+    # and one in two next/previous cases.  The others are left to the oracle alone ("model": 0).
+    every = {(4, 2): 8, (4, 1): 4, (4, 0): 2, (0, -1): 2, (1, -1): 2} if thorough else {(4, 2): 3}
+    k = {key: 0 for key in every}
     for c in out:
-        u = c["args"][7]
-        if c["args"][0] == 4 and u in every:
-            k[u] += 1
-            if k[u] % every[u] != 1:
+        op = c["args"][0]
+        key = (op, c["args"][7] if op == 4 else -1)
+        if key in every:
+            k[key] += 1
+            if k[key] % every[key] != 1:
                 c["model"] = 0
     return out
 
@@ -1048,7 +1050,7 @@ LEVEL_NOTE = ("Trusted: Coq kernel+VM, the hand model Model/Weekday.v (tied by c
               "Model/WeekdayZone.v (z_* functions, inside the model; tied by the zone-* streams, both backends; the known() region of finding "
               "skipped-midnight-day is now also bounded by the model: a result that differs from the model of the defect is a violation). "
               "calendar.setfirstweekday: inside the model (fw_* functions, stream firstweekday). Oracle-only: two of three year-unit nth_of zone "
-              "cases of the quick tier (model budget; thorough: three of four year-unit, one of two quarter-unit). Finding nth-of-overflow-at-max-year is fixed (nth_of catches the "
+              "cases of the quick tier (model budget; thorough: seven of eight year-unit, three of four quarter-unit, one of two month-unit nth_of and next/previous). Finding nth-of-overflow-at-max-year is fixed (nth_of catches the "
               "OverflowError of the stepping loop): its former _refuted/_partial theorems are replaced by nth_of_raises_pendulum_exception, "
               "nth_of_raises_nothing_else, nth_of_returns_nth_or_raises; the deterministic nth-max-year stream keeps the region exercised.")
 TECHNIQUE = ("Coq proof (lia with mod 7, induction on loop fuel / n, calendar bijection lemmas) over a hand model whose next/previous bodies are "
